@@ -12,12 +12,34 @@ package logic
 //@   (forall a int :: off(s.chains) <= a && a < off(s.chains) + len(s.chains) ==> 0 < at(s.chains, a) && at(s.chains, a) <= alloc && at(s.chains, a).n == s.len)
 //@ spec func cesDistinct(s *CatchEventSatisfier) bool =
 //@   forall a int, b int :: off(s.chains) <= a && a < b && b < off(s.chains) + len(s.chains) ==> at(s.chains, a) != at(s.chains, b)
+//@ spec func absNoneFull(E (Array Int Int), B (Array Int (Array Int Bool)), lo int, n int, L int) bool =
+//@   forall a int :: lo <= a && a < lo + n ==> exists k int :: 0 <= k && k < L && !B[E[a]][k]
+//@ spec func absCommonBit(E (Array Int Int), B (Array Int (Array Int Bool)), lo int, n int, L int) bool =
+//@   n > 0 ==> exists k int :: 0 <= k && k < L && forall a int :: lo <= a && a < lo + n ==> B[E[a]][k]
 //@ spec func cesNoneFull(s *CatchEventSatisfier) bool =
-//@   forall a int :: off(s.chains) <= a && a < off(s.chains) + len(s.chains) ==>
-//@      exists k int :: 0 <= k && k < s.len && !at(s.chains, a).bits[k]
+//@   absNoneFull(heap("E:Pbitset.BitSet")[base(s.chains)], heap("G:bitset.BitSet.bits"), off(s.chains), len(s.chains), s.len)
 //@ spec func cesCommonBit(s *CatchEventSatisfier) bool =
-//@   len(s.chains) > 0 ==> exists k int :: 0 <= k && k < s.len &&
-//@      forall a int :: off(s.chains) <= a && a < off(s.chains) + len(s.chains) ==> at(s.chains, a).bits[k]
+//@   absCommonBit(heap("E:Pbitset.BitSet")[base(s.chains)], heap("G:bitset.BitSet.bits"), off(s.chains), len(s.chains), s.len)
+
+// One Satisfy step seen at bit k (pointwise, no counting): E/B/lo/n are the chain array, the bits, the offset and the
+// number of chains before, E2/B2/lo2/n2 after; j is the position of the chain operated on; g is 1 for the bit of the
+// first matching definition and 0 for every other bit; fired says whether the step fired.
+//  - fired: chain j held every bit but the new one, and is removed by moving the last chain into its place;
+//  - same number of chains: chain j gains bit k iff g == 1 (or nothing happened at all), the others are untouched;
+//  - one more chain: the old ones are untouched (possibly relocated), the new last one holds bit k iff g == 1.
+//@ spec func cesStep(E (Array Int Int), B (Array Int (Array Int Bool)), E2 (Array Int Int), B2 (Array Int (Array Int Bool)), lo int, lo2 int, n int, n2 int, j int, k int, g int, fired bool) bool =
+//@   (fired ==> n2 == n - 1 && lo2 == lo && lo <= j && j < lo + n &&
+//@      (forall a int :: lo <= a && a < lo + n - 1 && a != j ==> B2[E2[a]][k] == B[E[a]][k]) &&
+//@      (j < lo + n - 1 ==> B2[E2[j]][k] == B[E[lo + n - 1]][k]) && (B[E[j]][k] ? 1 : 0) + g == 1) &&
+//@   (!fired ==> (n2 == n || n2 == n + 1)) &&
+//@   (!fired && n2 == n && (j < lo || g == 0) ==> forall a int :: 0 <= a && a < n ==> B2[E2[lo2 + a]][k] == B[E[lo + a]][k]) &&
+//@   (!fired && n2 == n && g == 1 ==> lo2 == lo && lo <= j && j < lo + n &&
+//@      (forall a int :: lo <= a && a < lo + n && a != j ==> B2[E2[a]][k] == B[E[a]][k]) && B2[E2[j]][k] && !B[E[j]][k]) &&
+//@   (!fired && n2 == n + 1 ==> (forall a int :: 0 <= a && a < n ==> B2[E2[lo2 + a]][k] == B[E[lo + a]][k]) && (B2[E2[lo2 + n]][k] ? 1 : 0) == g)
+
+// Number of chains of the satisfier holding bit k (see chainCard below).
+//@ spec func cesCard(s *CatchEventSatisfier, k int) int =
+//@   chainCard(heap("E:Pbitset.BitSet")[base(s.chains)], heap("G:bitset.BitSet.bits"), off(s.chains), len(s.chains), k)
 
 //@ func (*CatchEventSatisfier).Satisfy
 //@   prop C14
@@ -35,6 +57,22 @@ package logic
 //@   ensures [no-definition-matches-changes-nothing] (forall i int :: 0 <= i && i < len(satisfier.eventDefinitionInstances) ==>
 //@             !ev.MatchesEventInstance(satisfier.eventDefinitionInstances[i])) ==>
 //@             !matched && chain == -1 && satisfier.chains == old(satisfier.chains) && unchanged()
+//@   ensures [first-matching-definition-gains-one] satisfier.ParallelMultiple() && satisfier.len != 1 ==>
+//@             forall k int :: 0 <= k && k < len(satisfier.eventDefinitionInstances) &&
+//@               ev.MatchesEventInstance(satisfier.eventDefinitionInstances[k]) &&
+//@               (forall m int :: 0 <= m && m < k ==> !ev.MatchesEventInstance(satisfier.eventDefinitionInstances[m])) ==>
+//@               cesStep(old(heap("E:Pbitset.BitSet")[base(satisfier.chains)]), old(heap("G:bitset.BitSet.bits")), heap("E:Pbitset.BitSet")[base(satisfier.chains)], heap("G:bitset.BitSet.bits"),
+//@                       old(off(satisfier.chains)), off(satisfier.chains), old(len(satisfier.chains)), len(satisfier.chains), old(off(satisfier.chains)) + chain, k, 1, matched)
+//@   ensures [non-matching-definitions-gain-nothing] satisfier.ParallelMultiple() && satisfier.len != 1 ==>
+//@             forall k int :: 0 <= k && k < len(satisfier.eventDefinitionInstances) &&
+//@               !ev.MatchesEventInstance(satisfier.eventDefinitionInstances[k]) ==>
+//@               cesStep(old(heap("E:Pbitset.BitSet")[base(satisfier.chains)]), old(heap("G:bitset.BitSet.bits")), heap("E:Pbitset.BitSet")[base(satisfier.chains)], heap("G:bitset.BitSet.bits"),
+//@                       old(off(satisfier.chains)), off(satisfier.chains), old(len(satisfier.chains)), len(satisfier.chains), old(off(satisfier.chains)) + chain, k, 0, matched)
+//@   ensures [later-matching-definitions-gain-nothing] satisfier.ParallelMultiple() && satisfier.len != 1 ==>
+//@             forall k int, m int :: 0 <= m && m < k && k < len(satisfier.eventDefinitionInstances) &&
+//@               ev.MatchesEventInstance(satisfier.eventDefinitionInstances[m]) ==>
+//@               cesStep(old(heap("E:Pbitset.BitSet")[base(satisfier.chains)]), old(heap("G:bitset.BitSet.bits")), heap("E:Pbitset.BitSet")[base(satisfier.chains)], heap("G:bitset.BitSet.bits"),
+//@                       old(off(satisfier.chains)), off(satisfier.chains), old(len(satisfier.chains)), len(satisfier.chains), old(off(satisfier.chains)) + chain, k, 0, matched)
 //@   ensures [single-or-non-parallel-fires-on-any-match] (!satisfier.ParallelMultiple() || satisfier.len == 1) ==>
 //@             (matched <==> exists i int :: 0 <= i && i < len(satisfier.eventDefinitionInstances) && ev.MatchesEventInstance(satisfier.eventDefinitionInstances[i])) &&
 //@             satisfier.chains == old(satisfier.chains) && unchanged()
@@ -65,11 +103,9 @@ package logic
 //@ spec func tesDistinct(s *ThrowEventSatisfier) bool =
 //@   forall a int, b int :: off(s.chains) <= a && a < b && b < off(s.chains) + len(s.chains) ==> at(s.chains, a) != at(s.chains, b)
 //@ spec func tesNoneFull(s *ThrowEventSatisfier) bool =
-//@   forall a int :: off(s.chains) <= a && a < off(s.chains) + len(s.chains) ==>
-//@      exists k int :: 0 <= k && k < s.len && !at(s.chains, a).bits[k]
+//@   absNoneFull(heap("E:Pbitset.BitSet")[base(s.chains)], heap("G:bitset.BitSet.bits"), off(s.chains), len(s.chains), s.len)
 //@ spec func tesCommonBit(s *ThrowEventSatisfier) bool =
-//@   len(s.chains) > 0 ==> exists k int :: 0 <= k && k < s.len &&
-//@      forall a int :: off(s.chains) <= a && a < off(s.chains) + len(s.chains) ==> at(s.chains, a).bits[k]
+//@   absCommonBit(heap("E:Pbitset.BitSet")[base(s.chains)], heap("G:bitset.BitSet.bits"), off(s.chains), len(s.chains), s.len)
 
 //@ func (*ThrowEventSatisfier).Satisfy
 //@   prop C14
@@ -87,6 +123,22 @@ package logic
 //@   ensures [no-definition-matches-changes-nothing] (forall i int :: 0 <= i && i < len(satisfier.eventDefinitionInstances) ==>
 //@             !ev.MatchesEventInstance(satisfier.eventDefinitionInstances[i])) ==>
 //@             !matched && chain == -1 && satisfier.chains == old(satisfier.chains) && unchanged()
+//@   ensures [first-matching-definition-gains-one] satisfier.len != 1 ==>
+//@             forall k int :: 0 <= k && k < len(satisfier.eventDefinitionInstances) &&
+//@               ev.MatchesEventInstance(satisfier.eventDefinitionInstances[k]) &&
+//@               (forall m int :: 0 <= m && m < k ==> !ev.MatchesEventInstance(satisfier.eventDefinitionInstances[m])) ==>
+//@               cesStep(old(heap("E:Pbitset.BitSet")[base(satisfier.chains)]), old(heap("G:bitset.BitSet.bits")), heap("E:Pbitset.BitSet")[base(satisfier.chains)], heap("G:bitset.BitSet.bits"),
+//@                       old(off(satisfier.chains)), off(satisfier.chains), old(len(satisfier.chains)), len(satisfier.chains), old(off(satisfier.chains)) + chain, k, 1, matched)
+//@   ensures [non-matching-definitions-gain-nothing] satisfier.len != 1 ==>
+//@             forall k int :: 0 <= k && k < len(satisfier.eventDefinitionInstances) &&
+//@               !ev.MatchesEventInstance(satisfier.eventDefinitionInstances[k]) ==>
+//@               cesStep(old(heap("E:Pbitset.BitSet")[base(satisfier.chains)]), old(heap("G:bitset.BitSet.bits")), heap("E:Pbitset.BitSet")[base(satisfier.chains)], heap("G:bitset.BitSet.bits"),
+//@                       old(off(satisfier.chains)), off(satisfier.chains), old(len(satisfier.chains)), len(satisfier.chains), old(off(satisfier.chains)) + chain, k, 0, matched)
+//@   ensures [later-matching-definitions-gain-nothing] satisfier.len != 1 ==>
+//@             forall k int, m int :: 0 <= m && m < k && k < len(satisfier.eventDefinitionInstances) &&
+//@               ev.MatchesEventInstance(satisfier.eventDefinitionInstances[m]) ==>
+//@               cesStep(old(heap("E:Pbitset.BitSet")[base(satisfier.chains)]), old(heap("G:bitset.BitSet.bits")), heap("E:Pbitset.BitSet")[base(satisfier.chains)], heap("G:bitset.BitSet.bits"),
+//@                       old(off(satisfier.chains)), off(satisfier.chains), old(len(satisfier.chains)), len(satisfier.chains), old(off(satisfier.chains)) + chain, k, 0, matched)
 //@   ensures [single-definition-fires-on-any-match] satisfier.len == 1 ==>
 //@             (matched <==> exists i int :: 0 <= i && i < len(satisfier.eventDefinitionInstances) && ev.MatchesEventInstance(satisfier.eventDefinitionInstances[i])) &&
 //@             satisfier.chains == old(satisfier.chains) && unchanged()
@@ -107,3 +159,142 @@ package logic
 //@   ensures [constructor-establishes-the-invariant] result != nil && tesShape(result) && len(result.chains) == 0
 //@   loop 1 range catchEventElement.EventDefinitions()
 //@     invariant satisfier != nil && fresh(satisfier) && len(satisfier.chains) == 0 && satisfier.len == len(satisfier.eventDefinitionInstances)
+
+// ---------------------------------------------------------------------------------------------------------------
+// Accounting over histories (C14).  chainCard(E, B, lo, n, k): how many of the n chains stored at positions
+// lo..lo+n-1 of the element array E hold bit k (B maps a bit set to its bits).
+//@ spec func chainCard(E (Array Int Int), B (Array Int (Array Int Bool)), lo int, n int, k int) int =
+//@   n <= 0 ? 0 : chainCard(E, B, lo, n - 1, k) + (B[E[lo + n - 1]][k] ? 1 : 0)
+
+//@ lemma cardUnfold(E (Array Int Int), B (Array Int (Array Int Bool)), lo int, n int, k int)
+//@   prop C14
+//@   requires n > 0
+//@   ensures chainCard(E, B, lo, n, k) == chainCard(E, B, lo, n - 1, k) + (B[E[lo + n - 1]][k] ? 1 : 0)
+
+//@ lemma cardEmpty(E (Array Int Int), B (Array Int (Array Int Bool)), lo int, n int, k int)
+//@   prop C14
+//@   requires n <= 0
+//@   ensures chainCard(E, B, lo, n, k) == 0
+
+//@ lemma cardBounds(E (Array Int Int), B (Array Int (Array Int Bool)), lo int, n int, k int)
+//@   prop C14
+//@   induction on n
+//@   pattern chainCard(E, B, lo, n, k)
+//@   ensures 0 <= chainCard(E, B, lo, n, k) && chainCard(E, B, lo, n, k) <= n
+
+// Two chain arrays that agree on bit k position by position (possibly relocated) have the same count.
+//@ lemma cardFrame(E (Array Int Int), B (Array Int (Array Int Bool)), lo int, E2 (Array Int Int), B2 (Array Int (Array Int Bool)), lo2 int, n int, k int)
+//@   prop C14
+//@   induction on n
+//@   pattern chainCard(E2, B2, lo2, n, k); chainCard(E, B, lo, n, k)
+//@   requires forall a int :: 0 <= a && a < n ==> B2[E2[lo2 + a]][k] == B[E[lo + a]][k]
+//@   ensures chainCard(E2, B2, lo2, n, k) == chainCard(E, B, lo, n, k)
+
+// They differ at one position j only: the count moves by that position's contribution.
+//@ lemma cardPoint(E (Array Int Int), B (Array Int (Array Int Bool)), E2 (Array Int Int), B2 (Array Int (Array Int Bool)), lo int, n int, k int, j int)
+//@   prop C14
+//@   use lemma cardFrame
+//@   induction on n
+//@   pattern chainCard(E2, B2, lo, n, k); chainCard(E, B, lo, n, k); E2[j]; E[j]
+//@   requires lo <= j && j < lo + n
+//@   requires forall a int :: lo <= a && a < lo + n && a != j ==> B2[E2[a]][k] == B[E[a]][k]
+//@   ensures chainCard(E2, B2, lo, n, k) == chainCard(E, B, lo, n, k) - (B[E[j]][k] ? 1 : 0) + (B2[E2[j]][k] ? 1 : 0)
+
+// A count of n means every chain holds the bit, and conversely.
+//@ lemma cardFull(E (Array Int Int), B (Array Int (Array Int Bool)), lo int, n int, k int)
+//@   prop C14
+//@   use lemma cardBounds
+//@   induction on n
+//@   pattern chainCard(E, B, lo, n, k)
+//@   requires chainCard(E, B, lo, n, k) == n
+//@   ensures forall a int :: lo <= a && a < lo + n ==> B[E[a]][k]
+
+//@ lemma cardAll(E (Array Int Int), B (Array Int (Array Int Bool)), lo int, n int, k int)
+//@   prop C14
+//@   induction on n
+//@   pattern chainCard(E, B, lo, n, k)
+//@   requires forall a int :: lo <= a && a < lo + n ==> B[E[a]][k]
+//@   ensures chainCard(E, B, lo, n, k) == n
+
+// The count of bit k moves with a step exactly as the accounting needs: minus one when the step fired, plus g.
+// (cesStep is literally the postcondition of Satisfy at bit k, so accountStep composes with it by modus ponens.)
+//@ lemma accountKeep(E (Array Int Int), B (Array Int (Array Int Bool)), E2 (Array Int Int), B2 (Array Int (Array Int Bool)), lo int, lo2 int, n int, k int)
+//@   prop C14
+//@   use lemma cardFrame with E = E; B = B; lo = lo; E2 = E2; B2 = B2; lo2 = lo2; n = n; k = k
+//@   requires n >= 0
+//@   requires forall a int :: 0 <= a && a < n ==> B2[E2[lo2 + a]][k] == B[E[lo + a]][k]
+//@   ensures chainCard(E2, B2, lo2, n, k) == chainCard(E, B, lo, n, k)
+//@   ensures chainCard(E2, B2, lo2, n + 1, k) == chainCard(E, B, lo, n, k) + (B2[E2[lo2 + n]][k] ? 1 : 0)
+
+//@ lemma accountSet(E (Array Int Int), B (Array Int (Array Int Bool)), E2 (Array Int Int), B2 (Array Int (Array Int Bool)), lo int, n int, j int, k int)
+//@   prop C14
+//@   use lemma cardPoint with E = E; B = B; E2 = E2; B2 = B2; lo = lo; n = n; k = k; j = j
+//@   requires n >= 0 && lo <= j && j < lo + n
+//@   requires forall a int :: lo <= a && a < lo + n && a != j ==> B2[E2[a]][k] == B[E[a]][k]
+//@   ensures chainCard(E2, B2, lo, n, k) == chainCard(E, B, lo, n, k) - (B[E[j]][k] ? 1 : 0) + (B2[E2[j]][k] ? 1 : 0)
+
+//@ lemma accountFire(E (Array Int Int), B (Array Int (Array Int Bool)), E2 (Array Int Int), B2 (Array Int (Array Int Bool)), lo int, n int, j int, k int)
+//@   prop C14
+//@   use lemma cardPoint with E = E; B = B; E2 = E2; B2 = B2; lo = lo; n = n - 1; k = k; j = j
+//@   use lemma cardFrame with E = E; B = B; lo = lo; E2 = E2; B2 = B2; lo2 = lo; n = n - 1; k = k
+//@   requires n >= 1 && lo <= j && j < lo + n
+//@   requires forall a int :: lo <= a && a < lo + n - 1 && a != j ==> B2[E2[a]][k] == B[E[a]][k]
+//@   requires j < lo + n - 1 ==> B2[E2[j]][k] == B[E[lo + n - 1]][k]
+//@   ensures chainCard(E2, B2, lo, n - 1, k) == chainCard(E, B, lo, n, k) - (B[E[j]][k] ? 1 : 0)
+
+//@ lemma accountStep(E (Array Int Int), B (Array Int (Array Int Bool)), E2 (Array Int Int), B2 (Array Int (Array Int Bool)), lo int, lo2 int, n int, n2 int, j int, k int, g int, fired bool)
+//@   prop C14
+//@   use lemma accountKeep with E = E; B = B; E2 = E2; B2 = B2; lo = lo; lo2 = lo2; n = n; k = k
+//@   use lemma accountSet with E = E; B = B; E2 = E2; B2 = B2; lo = lo; n = n; j = j; k = k
+//@   use lemma accountFire with E = E; B = B; E2 = E2; B2 = B2; lo = lo; n = n; j = j; k = k
+//@   requires n >= 0 && (g == 0 || g == 1)
+//@   requires cesStep(E, B, E2, B2, lo, lo2, n, n2, j, k, g, fired)
+//@   ensures chainCard(E2, B2, lo2, n2, k) == chainCard(E, B, lo, n, k) - (fired ? 1 : 0) + g
+
+// ---------------------------------------------------------------------------------------------------------------
+// Over a whole history.  cnt[k] is the number of events so far whose first matching definition was k, fired the number
+// of times Satisfy returned matched; acct says: every such event of definition k either sits in a chain or was consumed
+// by a firing.
+//@ spec func acct(E (Array Int Int), B (Array Int (Array Int Bool)), lo int, n int, cnt (Array Int Int), fired int, L int) bool =
+//@   forall k int :: 0 <= k && k < L ==> cnt[k] == fired + chainCard(E, B, lo, n, k)
+
+// Base: a new satisfier (no chains, nothing counted).
+//@ lemma histInit(E (Array Int Int), B (Array Int (Array Int Bool)), lo int, cnt (Array Int Int), L int)
+//@   prop C14
+//@   requires forall k int :: 0 <= k && k < L ==> cnt[k] == 0
+//@   ensures acct(E, B, lo, 0, cnt, 0, L)
+
+// Step: one Satisfy call whose first matching definition is h (h == -1: none), which fired f times (0 or 1); its
+// hypothesis on the counts is the conclusion of accountStep at every k.
+//@ lemma histStep(E (Array Int Int), B (Array Int (Array Int Bool)), lo int, n int, E2 (Array Int Int), B2 (Array Int (Array Int Bool)), lo2 int, n2 int, cnt (Array Int Int), cnt2 (Array Int Int), fired int, f int, L int, h int)
+//@   prop C14
+//@   requires acct(E, B, lo, n, cnt, fired, L)
+//@   requires forall k int :: 0 <= k && k < L ==> chainCard(E2, B2, lo2, n2, k) == chainCard(E, B, lo, n, k) - f + (k == h ? 1 : 0)
+//@   requires forall k int :: 0 <= k && k < L ==> cnt2[k] == cnt[k] + (k == h ? 1 : 0)
+//@   ensures acct(E2, B2, lo2, n2, cnt2, fired + f, L)
+
+// Never more firings than the least-matched definition has been matched.
+//@ lemma histNeverTooOften(E (Array Int Int), B (Array Int (Array Int Bool)), lo int, n int, cnt (Array Int Int), fired int, L int, k int)
+//@   prop C14
+//@   use lemma cardBounds with E = E; B = B; lo = lo; n = n; k = k
+//@   requires acct(E, B, lo, n, cnt, fired, L) && n >= 0 && 0 <= k && k < L
+//@   ensures fired <= cnt[k]
+
+// Every definition matched exactly K times: fired exactly K times, and no partial chain is left.  The witnesses of the
+// representation invariant are parameters: k0 is a bit every chain holds (cesCommonBit), chain a1 lacks bit k1
+// (cesNoneFull); "for all witnesses" is the same statement as "if witnesses exist".
+//@ lemma histNoChainLeft(E (Array Int Int), B (Array Int (Array Int Bool)), lo int, n int, cnt (Array Int Int), fired int, L int, k0 int, k1 int, a1 int)
+//@   prop C14
+//@   use lemma cardAll with E = E; B = B; lo = lo; n = n; k = k0
+//@   use lemma cardFull with E = E; B = B; lo = lo; n = n; k = k1
+//@   requires acct(E, B, lo, n, cnt, fired, L) && n >= 0
+//@   requires n > 0 ==> 0 <= k0 && k0 < L && forall a int :: lo <= a && a < lo + n ==> B[E[a]][k0]
+//@   requires n > 0 ==> 0 <= k1 && k1 < L && lo <= a1 && a1 < lo + n && !B[E[a1]][k1]
+//@   requires n > 0 ==> cnt[k0] == cnt[k1]
+//@   ensures n == 0
+
+//@ lemma histExact(E (Array Int Int), B (Array Int (Array Int Bool)), lo int, cnt (Array Int Int), fired int, L int, K int)
+//@   prop C14
+//@   use lemma cardEmpty with E = E; B = B; lo = lo; n = 0; k = 0
+//@   requires acct(E, B, lo, 0, cnt, fired, L) && L >= 1 && cnt[0] == K
+//@   ensures fired == K
